@@ -65,13 +65,46 @@ Section Damage.
   Qed.
 
   (* ============================================================ (1) checksummed frames *)
-  (* THE hypothesis on crc.  For every frame position: if the original file holds payload p there
-     and the damaged file holds payload p', and p' has the checksum of p, then p' is p.  (CRC32C
-     satisfies this for p' obtained from p by flipping one bit or any burst of at most 32 bits;
-     that fact about CRC32C is not proved here.) *)
+  (* THE hypotheses on crc, for every frame position (start, limit) at which the original file
+     holds a frame with payload p and the damaged file a frame with payload p':
+
+     crc_detects_payload — p' has the LENGTH of p: if it also has the checksum of p, it is p.
+       This is the case of damage inside a payload (the envelope — tag and length varint — is
+       intact).  CRC32C has this property whenever p' differs from p by one bit or by a burst of
+       at most 32 bits (a fact about the polynomial, not proved here); for other differences it
+       fails with probability about 2^-32 per frame.
+
+     crc_detects_envelope — p' has ANOTHER length (the frame's length varint or tag was damaged;
+       load_block does not check that the SstEntry fills [start, limit), so a shorter payload
+       followed by unread bytes is decoded): then the checksums differ.  No property of CRC32C
+       covers a change of length; this is an event of probability about 2^-32 per damaged
+       envelope, assumed away here and sampled exhaustively by the check (every single-bit flip,
+       byte overwrite and window over every envelope). *)
+  Definition crc_detects_payload (f f' : list N) : Prop :=
+    forall m k p k' p', payload_at f m = Some (k, p) -> payload_at f' m = Some (k', p') ->
+                        len p' = len p -> crc32 crc p' = crc32 crc p -> p' = p.
+  Definition crc_detects_envelope (f f' : list N) : Prop :=
+    forall m k p k' p', payload_at f m = Some (k, p) -> payload_at f' m = Some (k', p') ->
+                        len p' <> len p -> crc32 crc p' <> crc32 crc p.
+
+  (* what the proofs below use: the two together *)
   Definition crc_detects (f f' : list N) : Prop :=
     forall m k p k' p', payload_at f m = Some (k, p) -> payload_at f' m = Some (k', p') ->
                         crc32 crc p' = crc32 crc p -> p' = p.
+
+  Lemma crc_detects_of_split : forall f f', crc_detects_payload f f' -> crc_detects_envelope f f' -> crc_detects f f'.
+  Proof.
+    intros f f' Hp He m k p k' p' H1 H2 Hc.
+    destruct (N.eq_dec (len p') (len p)) as [El|El]; [exact (Hp m k p k' p' H1 H2 El Hc)|].
+    exfalso. exact (He m k p k' p' H1 H2 El Hc).
+  Qed.
+
+  Lemma crc_detects_split : forall f f', crc_detects f f' -> crc_detects_payload f f' /\ crc_detects_envelope f f'.
+  Proof.
+    intros f f' H. split.
+    - intros m k p k' p' H1 H2 _ Hc. exact (H m k p k' p' H1 H2 Hc).
+    - intros m k p k' p' H1 H2 Hl Hc. apply Hl. rewrite (H m k p k' p' H1 H2 Hc). reflexivity.
+  Qed.
 
   Section Frames.
     Variables f f' : list N.
@@ -138,6 +171,36 @@ Section Damage.
       destruct (is_at p1); [|apply IH; exact H].
       destruct (snd (iter_next (block_fo b) (block_fi b) b stop p1 [])) as [p2|e| | |]; cbn [sbind] in *; try discriminate.
       destruct (is_at p2); [left; exact H|apply IH; exact H].
+    Qed.
+    Lemma walk_back_blocks_damaged : forall ies es, walk_back_blocks crc f ies = (es, WEnd) ->
+      walk_back_blocks crc f' ies = (es, WEnd) \/
+      (exists es' w, walk_back_blocks crc f' ies = (es', w) /\ w <> WEnd /\ exists tl, es = es' ++ tl).
+    Proof.
+      induction ies as [|[k m] ies IH]; intros es H; [left; exact H|].
+      cbn [walk_back_blocks] in *.
+      destruct (load_block crc f m) as [b|e| | |] eqn:Eb; try (inversion H; discriminate).
+      destruct (load_block_damaged m b Eb) as [E'|Hf].
+      - rewrite E'. destruct (back_block b) as [es1 r].
+        destruct r as [q|e| | |]; try (inversion H; discriminate).
+        destruct (walk_back_blocks crc f ies) as [es2 w] eqn:E2. inversion H; subst.
+        destruct (IH es2 eq_refl) as [IH1|(es' & w' & IH1 & IH2 & tl & IH3)].
+        + rewrite IH1. left. reflexivity.
+        + rewrite IH1. right. exists (es1 ++ es'), w'. split; [reflexivity|]. split; [exact IH2|].
+          exists tl. subst es2. now rewrite app_assoc.
+      - right. destruct (load_block crc f' m) as [b'|e| | |]; cbn [failed] in Hf; try contradiction;
+          (eexists; eexists; split; [reflexivity|]; split; [discriminate|exists es; reflexivity]).
+    Qed.
+
+    Lemma cross_back_damaged : forall ies r, cross_back crc f ies = SOk r ->
+      same_or_failed (cross_back crc f' ies) (SOk r).
+    Proof.
+      induction ies as [|[k m] ies IH]; intros r H; [left; exact H|].
+      cbn [cross_back] in *.
+      destruct (load_block crc f m) as [b|e| | |] eqn:Eb; cbn [sbind] in H; try discriminate.
+      destruct (load_block_damaged m b Eb) as [E'|Hf]; [|right; apply failed_bind_l; exact Hf].
+      rewrite E'. cbn [sbind].
+      destruct (bc_prev b PLast) as [q|e| | |]; cbn [sbind] in *; try discriminate.
+      destruct (is_at q); [left; exact H|apply IH; exact H].
     Qed.
   End Frames.
 
@@ -207,6 +270,24 @@ Section Damage.
     sst_walk crc (with_file t f') = (es, WEnd) \/
     (exists es' w, sst_walk crc (with_file t f') = (es', w) /\ w <> WEnd /\ exists tl, es = es' ++ tl).
   Proof. intros t f' Hdet es H. unfold sst_walk in *. cbn [with_file t_file t_index]. apply (walk_blocks_damaged (t_file t) f' Hdet). exact H. Qed.
+
+  Lemma sst_walk_back_damaged : forall t f', crc_detects (t_file t) f' -> forall es,
+    sst_walk_back crc t = (es, WEnd) ->
+    sst_walk_back crc (with_file t f') = (es, WEnd) \/
+    (exists es' w, sst_walk_back crc (with_file t f') = (es', w) /\ w <> WEnd /\ exists tl, es = es' ++ tl).
+  Proof. intros t f' Hdet es H. unfold sst_walk_back in *. cbn [with_file t_file t_index]. apply (walk_back_blocks_damaged (t_file t) f' Hdet). exact H. Qed.
+
+  Lemma sst_meta_keys_damaged : forall t f' r, crc_detects (t_file t) f' ->
+    sst_meta_keys crc t = SOk r -> same_or_failed (sst_meta_keys crc (with_file t f')) (SOk r).
+  Proof.
+    intros t f' r Hdet H. unfold sst_meta_keys, sst_first_key, sst_last_key in *. cbn [with_file t_file t_index].
+    destruct (cross crc (t_file t) (fun _ => true) (t_index t)) as [kv|e| | |] eqn:E1; cbn [sbind] in H; try discriminate.
+    destruct (cross_damaged _ f' Hdet _ _ _ E1) as [E1'|Hf]; [|right; do 2 apply failed_bind_l; exact Hf].
+    rewrite E1'. cbn [sbind].
+    destruct (cross_back crc (t_file t) (rev (t_index t))) as [kv2|e| | |] eqn:E2; cbn [sbind] in H; try discriminate.
+    destruct (cross_back_damaged _ f' Hdet _ _ E2) as [E2'|Hf]; [|right; apply failed_bind_l; apply failed_bind_l; exact Hf].
+    rewrite E2'. cbn [sbind]. left. exact H.
+  Qed.
 
   Section PointReads.
   Variable sip : list N -> N.
@@ -295,6 +376,22 @@ Section Damage.
     rewrite (load_block_agree f f' L m) by assumption. rewrite (IH Hr). reflexivity.
   Qed.
 
+  Lemma walk_back_blocks_agree : forall f f' L ies, agree_on 0 L f f' -> L <= len f -> L <= len f' ->
+    Forall (fun km => bm_limit (snd km) <= L) ies -> walk_back_blocks crc f' ies = walk_back_blocks crc f ies.
+  Proof.
+    intros f f' L ies Ha Hf Hf'. induction ies as [|[k m] ies IH]; intros H; [reflexivity|].
+    inversion H as [|? ? Hm Hr]; subst. cbn [walk_back_blocks]. cbn [snd] in Hm.
+    rewrite (load_block_agree f f' L m) by assumption. rewrite (IH Hr). reflexivity.
+  Qed.
+
+  Lemma cross_back_agree : forall f f' L ies, agree_on 0 L f f' -> L <= len f -> L <= len f' ->
+    Forall (fun km => bm_limit (snd km) <= L) ies -> cross_back crc f' ies = cross_back crc f ies.
+  Proof.
+    intros f f' L ies Ha Hf Hf'. induction ies as [|[k m] ies IH]; intros H; [reflexivity|].
+    inversion H as [|? ? Hm Hr]; subst. cbn [cross_back]. cbn [snd] in Hm.
+    rewrite (load_block_agree f f' L m) by assumption. rewrite (IH Hr). reflexivity.
+  Qed.
+
   (* what a successful open guarantees about where the frames lie *)
   Lemma check_index_bound : forall i ies, check_index i ies = SOk tt -> Forall (fun km => bm_limit (snd km) <= i) ies.
   Proof.
@@ -347,7 +444,8 @@ Section Damage.
     agree_on 0 (bm_limit (fb_filter (t_final t))) f f' ->
     t_index t' = t_index t /\ t_filter t' = t_filter t /\
     sst_walk crc t' = sst_walk crc t /\
-    sst_first_key crc t' = sst_first_key crc t /\
+    sst_walk_back crc t' = sst_walk_back crc t /\
+    sst_meta_keys crc t' = sst_meta_keys crc t /\
     (forall key ts, sst_load crc sip pp t' key ts = sst_load crc sip pp t key ts).
   Proof.
     intros f f' t t' Ho Ho' Hi Hf Ha.
@@ -363,9 +461,12 @@ Section Damage.
     assert (Hall : Forall (fun km => bm_limit (snd km) <= L) (t_index t)).
     { eapply Forall_impl; [|exact L5]. cbn beta. intros km Hkm. lia. }
     split; [exact Eidx|]. split; [exact Eflt|].
-    split; [|split].
+    assert (Hrev : Forall (fun km => bm_limit (snd km) <= L) (rev (t_index t))) by (apply Forall_rev; exact Hall).
+    split; [|split; [|split]].
     - unfold sst_walk. rewrite Hfile, Hfile', Eidx. apply (walk_blocks_agree f f' L); assumption.
-    - unfold sst_first_key. rewrite Hfile, Hfile', Eidx. rewrite (cross_agree f f' L) by assumption. reflexivity.
+    - unfold sst_walk_back. rewrite Hfile, Hfile', Eidx. apply (walk_back_blocks_agree f f' L); assumption.
+    - unfold sst_meta_keys, sst_first_key, sst_last_key. rewrite Hfile, Hfile', Eidx.
+      rewrite (cross_agree f f' L) by assumption. rewrite (cross_back_agree f f' L) by assumption. reflexivity.
     - intros key ts. unfold sst_load. rewrite Eflt.
       destruct (Table.ModelBloom.filter_check (t_filter t) (sip key mod W64)) as [[|]|]; try reflexivity.
       assert (Hseek : sc_seek crc pp t' key = sc_seek crc pp t key).
